@@ -291,7 +291,8 @@ def h_refusal(S, B):
     S.check("nothing-executed-for-refused-client", LOG == [])
     if escaped is None:
         S.check("refused-connection-closed", sockX.closed >= 1)
-        if first == "connect" and fault == "reads-reply":
+        if first in ("connect", "unknown-serializer") and fault == "reads-reply":
+            # the refusal is sent in the built-in serializer, whatever serializer id the client's message carries
             rr = rig.parse_sent(sockX)
             S.check("refusal-says-why", And(len(rr) == 1, rr[0].type == protocol.MSG_CONNECTFAIL if rr else False))
             if len(rr) == 1:
